@@ -262,7 +262,7 @@ func (m *MessageStore) addToMessageQueue(_ context.Context, e ipfslog.Entry) err
 
 // FIXME: use iterator instead to reduce resource usage (require go-ipfs-log improvements)
 func (m *MessageStore) ListEvents(ctx context.Context, since, until []byte, reverse bool) (<-chan *protocoltypes.GroupMessageEvent, error) {
-	entries, err := getEntriesInRange(m.OpLog().GetEntries().Reverse().Slice(), since, until)
+	entries, err := getEntriesInRange(sortedLogEntries(m.OpLog()), since, until)
 	if err != nil {
 		return nil, err
 	}
